@@ -1,0 +1,17 @@
+//! Verification hooks. Compiled only with `--cfg cstree_verif`; never part of a normal build.
+#![cfg(cstree_verif)]
+#![allow(missing_docs)]
+
+use std::sync::atomic::{AtomicU32, Ordering};
+
+/// Mask applied to every 32-bit child hash of a green node (default: all bits, i.e. no change).
+/// Lowering it forces hash collisions between different nodes.
+static HASH_MASK: AtomicU32 = AtomicU32::new(u32::MAX);
+
+pub fn set_hash_mask(mask: u32) {
+    HASH_MASK.store(mask, Ordering::SeqCst);
+}
+
+pub fn hash_mask() -> u32 {
+    HASH_MASK.load(Ordering::SeqCst)
+}
